@@ -2577,7 +2577,13 @@ int32 matrixValidateCertsExt(psPool_t *pool, psX509Cert_t *subjectCerts,
                     if (opts->nameType == NAME_TYPE_ANY ||
                         opts->nameType == NAME_TYPE_SAN_IP_ADDRESS)
                     {
-                        Snprintf(ip, 15, "%u.%u.%u.%u",
+                        if (n->dataLen != 4)
+                        {
+                            /* Only IPv4 literals are compared; a 16-byte
+                               (IPv6) address must not be read as IPv4 */
+                            break;
+                        }
+                        Snprintf(ip, sizeof(ip), "%u.%u.%u.%u",
                             (unsigned char) (n->data[0]),
                             (unsigned char ) (n->data[1]),
                             (unsigned char ) (n->data[2]),
